@@ -39,6 +39,10 @@ Rewrite rules (each application is counted per function and reported in the evid
   R8  the surrounding `impl Trait for T` header is not copied: the method is emitted where the
       template places it (an inherent impl); `as name` renames the fn identifier in its own header
   R9  `ret r`: the return type `-> T` becomes `-> (r: T)` so that clauses can name the result
+  R15 `//@stmts file | container | fn | from "a" | to "b"`: a contiguous statement range of a function body
+      (from the statement containing anchor a through the statement containing anchor b) is emitted verbatim
+      inside a wrapper function whose header, parameters and return expression are written in the template;
+      the variables the range reads become the wrapper's parameters
   R14 `closure N params (a: T, b: T)`: type annotations are added to the un-annotated parameters of a closure
       (names must match the source exactly; the types are the ones rustc infers)
   R13 a `use crate::path::Name;` statement inside a function body is dropped (the unit is one module and
@@ -485,7 +489,29 @@ def splice(body, sections, fname):
             k = int(arg)
             if k >= len(closures):
                 raise ExtractError("%s: closure %d not found (function has %d)" % (fname, k, len(closures)))
-            inserts.append((closures[k][1], " " + text + " "))
+            # a contract needs a braced body: wrap a brace-less closure body expression in { } (R14)
+            j = closures[k][1]
+            while j < len(body) and body[j] in " \t\n":
+                j += 1
+            if body[j] != "{":
+                depth = 0
+                e = j
+                while e < len(body):
+                    if mask[e]:
+                        ch = body[e]
+                        if ch in "([{":
+                            depth += 1
+                        elif ch in ")]}":
+                            if depth == 0:
+                                break
+                            depth -= 1
+                        elif ch in ",;" and depth == 0:
+                            break
+                    e += 1
+                inserts.append((closures[k][1], " " + text + " {"))
+                inserts.append((e, "}"))
+            else:
+                inserts.append((closures[k][1], " " + text + " "))
             if params is not None:
                 # R14: type annotations for un-annotated closure parameters: `|a, b|` -> `|a: T, b: T|`.
                 # The names must be exactly the ones in the source, in order.
@@ -665,6 +691,50 @@ def process(template_path, repo, meta):
             meta["items"].append({"kind": "const", "file": mc.group(1), "name": mc.group(2),
                                   "sha256": hashlib.sha256(hits[0].group(0).encode()).hexdigest()})
             i += 1
+            continue
+        ms = re.match(r"^\s*//@stmts\s+(.*)$", ln)
+        if ms:
+            # //@stmts file | container | fn | from "anchor" | to "anchor"   ... sections ... //@end
+            fields = [f.strip() for f in ms.group(1).split("|")]
+            rel, container, name = fields[0], fields[1], fields[2]
+            fa = re.match(r'^from "(.*)"$', fields[3]).group(1)
+            ta = re.match(r'^to "(.*)"$', fields[4]).group(1)
+            path = os.path.join(repo, rel)
+            if path not in sources:
+                if not os.path.exists(path):
+                    raise ExtractError("source file missing: " + rel)
+                sources[path] = Source(path)
+            S = sources[path]
+            block = []
+            i += 1
+            while i < len(tmpl) and not re.match(r"^\s*//@end\s*$", tmpl[i]):
+                mm = re.match(r"^\s*//@ ?(.*)$", tmpl[i])
+                if not mm:
+                    raise ExtractError("non-directive line inside //@stmts block: " + tmpl[i])
+                block.append(mm.group(1))
+                i += 1
+            i += 1
+            spec_text, sections = parse_block(block)
+            hs, o, c = S.find_fn(container, name)
+            body = S.src[o:c + 1]
+            bmask = code_mask(body)
+            ia = [x.start() for x in re.finditer(re.escape(fa), body) if bmask[x.start()]]
+            ib = [x.start() for x in re.finditer(re.escape(ta), body) if bmask[x.start()]]
+            if len(ia) != 1 or len(ib) != 1:
+                raise ExtractError("%s: statement-range anchors matched %d / %d times" % (name, len(ia), len(ib)))
+            s0, _ = stmt_bounds(body, bmask, ia[0])
+            _, e1 = stmt_bounds(body, bmask, ib[0])
+            if e1 <= s0:
+                raise ExtractError("%s: empty statement range" % name)
+            frag = "{" + body[s0:e1] + "}"
+            counts = {"R15": 1}
+            frag2 = apply_rewrites(frag, counts)
+            frag3 = splice(frag2, sections, name)
+            out.append(frag3.strip()[1:-1])
+            meta["items"].append({
+                "kind": "stmts", "file": rel, "container": container, "name": name, "emitted_as": name + "[range]",
+                "span": [o + s0, o + e1], "sha256": hashlib.sha256(body[s0:e1].encode()).hexdigest(),
+                "rewrites": counts, "from": fa, "to": ta})
             continue
         m = re.match(r"^\s*//@(fn|struct)\s+(.*)$", ln)
         if not m:
